@@ -37,36 +37,48 @@ lexer grammar CTELexer;
 type LexerContext interface {
 	RecordVerbatimSentinel(text string)
 	IsAtVerbatimSentinel(stream antlr.CharStream) bool
-	IsSentinelChar(stream antlr.CharStream) bool
+	IsSentinelChar(stream antlr.CharStream, index int) bool
 }
 
 type CTELexerContext struct {
-	verbatimSentinel string
-	verbatimIndex    int
+	// The sentinel is kept as code points because the char stream is indexed by
+	// code point, not by byte.
+	verbatimSentinel []rune
 }
 
 func (_this *CTELexerContext) RecordVerbatimSentinel(text string) {
-	_this.verbatimSentinel = text
+	_this.verbatimSentinel = []rune(text)
 }
 
 func (_this *CTELexerContext) IsAtVerbatimSentinel(stream antlr.CharStream) bool {
-    for n := 0; n < len(_this.verbatimSentinel); n++ {
-		if stream.LA(n+1) != int(_this.verbatimSentinel[n]) {
-		  return false;
+	for n, ch := range _this.verbatimSentinel {
+		if stream.LA(n+1) != int(ch) {
+			return false
 		}
-	  }
-  
-	  _this.verbatimIndex = 0;
-	  return true;
-  }
+	}
+	return true
+}
 
-func (_this *CTELexerContext) IsSentinelChar(stream antlr.CharStream) bool {
-    index := _this.verbatimIndex;
-    if index >= len(_this.verbatimSentinel) {
-      return false;
-    }
-    _this.verbatimIndex++;
-    return stream.LA(1) == int(_this.verbatimSentinel[index]);
+// IsSentinelChar checks if the next character in the stream is the character
+// at the given index of a complete sentinel (the characters before and after it
+// are checked as well, so that a mere prefix of the sentinel is never taken for
+// the sentinel). It keeps no state of its own because Antlr may evaluate a
+// predicate more than once (or not at all) per character.
+func (_this *CTELexerContext) IsSentinelChar(stream antlr.CharStream, index int) bool {
+	if index < 0 || index >= len(_this.verbatimSentinel) {
+		return false
+	}
+	for n, ch := range _this.verbatimSentinel {
+		// LA(1) is the next character, LA(-1) the previous one; there is no LA(0)
+		offset := n - index + 1
+		if offset <= 0 {
+			offset--
+		}
+		if stream.LA(offset) != int(ch) {
+			return false
+		}
+	}
+	return true
 }
 
 type CTEContextualInterpreter struct {
@@ -89,7 +101,10 @@ func isAtVerbatimSentinel(lexer *CTELexer) bool {
 }
 
 func isSentinelChar(lexer *CTELexer) bool {
-	return lexer.Interpreter.(LexerContext).IsSentinelChar(lexer.GetInputStream())
+	// The closing sentinel is a token of its own, so the position inside the
+	// sentinel is the position inside the current token.
+	stream := lexer.GetInputStream()
+	return lexer.Interpreter.(LexerContext).IsSentinelChar(stream, stream.Index()-lexer.TokenStartCharIndex)
 }
 
 }
